@@ -9,7 +9,7 @@ connections (before and after emptying L1) are recorded and validated by spec/Or
 import json
 import os
 
-from vlib import Run, tlc_tagged, Infra
+from vlib import Run, tlc_tagged, Infra, go_crash
 from orca import SHAPES1, SHAPES2, shape_name, TRACE_CFG
 
 FAULT_CFG = """SPECIFICATION FairSpec
@@ -78,7 +78,7 @@ def check(prop, tier, seed):
     run.extra["negative_control"] = "with KnownSetAck = FALSE TLC finds the acknowledged-set-with-stale-L1 scenario (%s)" % res.violated
     # real code
     if quick:
-        shapes = [SHAPES2[0], SHAPES2[1], SHAPES1[0]]
+        shapes = [SHAPES2[0], SHAPES2[1], SHAPES2[2], SHAPES1[0]]
     else:
         shapes = [SHAPES2[0], SHAPES2[1], SHAPES2[2], SHAPES2[3], SHAPES2[5], SHAPES1[0], SHAPES1[1], SHAPES1[2]]
     files = []
@@ -108,7 +108,33 @@ def check(prop, tier, seed):
             p.kill()
             raise Infra("orca-fault timed out on %s" % shape_name(sh))
         if p.returncode != 0:
-            raise Infra("orca-fault failed on %s: %s" % (shape_name(sh), se[-3000:]))
+            crash = go_crash(se)
+            if not crash:
+                run.driver_failed("orca-fault failed on %s" % (shape_name(sh)), se)
+            # the server process died: the last fault that was armed is the culprit
+            last = None
+            lines = open(out).read().splitlines()
+            if lines and not lines[-1].endswith("}"):
+                lines = lines[:-1]
+            for ln in lines:
+                e = json.loads(ln)
+                if e["ev"] == "fault":
+                    last = e["fault"]
+            with open(out, "w") as f:
+                f.write("\n".join(lines) + ("\n" if lines else ""))
+            # drop the unfinished last trace
+            evs = [json.loads(x) for x in lines]
+            cut = max([i for i, e in enumerate(evs) if e["ev"] == "reset"] or [0])
+            with open(out, "w") as f:
+                for e in evs[:cut]:
+                    f.write(json.dumps(e) + "\n")
+            run.candidate("ProcessCrash", "the server process died (%s) with fault %s on %s (%s)" % (crash, json.dumps(last), shape_name(sh), proto),
+                          sig={"mkind": "ProcessCrash", "cfg": shape_name(sh), "op": (last or {}).get("op"), "tier": (last or {}).get("tier"), "class": (last or {}).get("class")},
+                          detail={"stderr": se[-3000:], "fault": last}, replay={"driver": "orca-fault", "cfg": shape_name(sh), "proto": proto, "fault": last})
+            stats["%s %s" % (shape_name(sh), proto)] = {"crashed": crash}
+            if os.path.getsize(out) > 0:
+                files.append(out)
+            continue
         stats["%s %s" % (shape_name(sh), proto)] = json.loads(so.strip().splitlines()[-1])
         files.append(out)
     tr = run.path("fault-all.ndjson")
